@@ -17,6 +17,12 @@ func runPubScenario(c *Ctx, cooked bool, nops int) {
 	} else {
 		proto = xpub.NewProtocol()
 	}
+	runFanoutScenario(c, "PUB", "subscriber", proto, nil, true, nops)
+}
+
+// the fan-out machine (every Send is cloned into every pipe's bounded queue) driven against a sending socket:
+// PUB / XPUB, and the survey side of XSURVEYOR (sendHdr = the survey id the raw socket's user supplies)
+func runFanoutScenario(c *Ctx, NAME, peerName string, proto mangos.ProtocolBase, sendHdr []byte, isPub bool, nops int) {
 	e := NewExec(c, "m.pub", proto, "pub")
 	pipes := []int{}
 	held := map[int]bool{}
@@ -49,7 +55,7 @@ func runPubScenario(c *Ctx, cooked bool, nops int) {
 				sq := int(ev.msg[len(ev.msg)-2])<<8 | int(ev.msg[len(ev.msg)-1])
 				l := sent[ev.pipe]
 				if len(l) > 0 && l[len(l)-1] >= sq {
-					c.Violate(fmt.Sprintf("PUB: subscriber pipe %d was sent message #%d after #%d (order/duplication)", ev.pipe, sq, l[len(l)-1]), e.Replay())
+					c.Violate(fmt.Sprintf("%s: %s pipe %d was sent message #%d after #%d (order/duplication)", NAME, peerName, ev.pipe, sq, l[len(l)-1]), e.Replay())
 				}
 				sent[ev.pipe] = append(l, sq)
 			}
@@ -76,7 +82,7 @@ func runPubScenario(c *Ctx, cooked bool, nops int) {
 					unheld = append(unheld, p)
 				}
 			}
-			e.Send(0, nil, body)
+			e.Send(0, sendHdr, body)
 			obs := lastObs(e)
 			record(obs)
 			for _, p := range unheld {
@@ -87,7 +93,7 @@ func runPubScenario(c *Ctx, cooked bool, nops int) {
 					}
 				}
 				if !found {
-					c.Violate(fmt.Sprintf("PUB: connected subscriber pipe %d (never slowed down, so its queue is empty) was not sent message #%d", p, seq), e.Replay())
+					c.Violate(fmt.Sprintf("%s: connected %s pipe %d (never slowed down, so its queue is empty) was not sent message #%d", NAME, peerName, p, seq), e.Replay())
 				}
 			}
 		case k < 12:
@@ -122,12 +128,18 @@ func runPubScenario(c *Ctx, cooked bool, nops int) {
 			qlen = c.R.Pick(0, 1, 2, 3)
 			e.SetOpt(0, mangos.OptionWriteQLen, fmt.Sprint(qlen), qlen)
 		default:
-			if len(pipes) > 0 {
+			if !isPub {
+				// the receive queue length is a different option: it must not change how many surveys a stalled respondent's queue holds
+				r := c.R.Pick(0, 1, 2, 5)
+				e.SetOpt(0, mangos.OptionReadQLen, fmt.Sprint(r), r)
+			} else if len(pipes) > 0 {
 				e.Inject(pipes[c.R.Intn(len(pipes))], c.R.Bytes(c.R.Intn(6)))
 			}
 		}
 	}
-	e.Recv(0)
+	if isPub {
+		e.Recv(0)
+	}
 	e.OpenCtx(9)
 	e.Finish()
 }
